@@ -325,7 +325,26 @@ func unmarshalSourceFile(source string) (*sourceFile, error) {
 	if len(file.RelPath) < 1 {
 		return nil, simpleTrzszError("Invalid source file: %s", source)
 	}
+	for _, name := range file.RelPath {
+		if err := checkFileName(name); err != nil {
+			return nil, err
+		}
+	}
 	return &file, nil
+}
+
+// checkFileName rejects a file name received from the peer unless it is a single
+// path element, so that joining it onto the destination can never leave it.
+func checkFileName(name string) error {
+	if name == "" || name == "." || name == ".." {
+		return simpleTrzszError("Invalid file name: %s", name)
+	}
+	for i := 0; i < len(name); i++ {
+		if name[i] == '/' || os.IsPathSeparator(name[i]) {
+			return simpleTrzszError("Invalid file name: %s", name)
+		}
+	}
+	return nil
 }
 
 type targetFile struct {
